@@ -576,6 +576,7 @@ func C06(cfg Cfg) int {
 	}
 done:
 	c06Handlers(run, e.Env, r)
+	c06Malformed(run, e)
 	// Every fault must have fired somewhere, otherwise the matrix has a hole.
 	for _, f := range c06Faults {
 		total := 0
@@ -826,4 +827,195 @@ func c06IOChild(cfg Cfg) int {
 	}
 	fmt.Printf("STAT io_fault_requests %d\n", checked)
 	return 0
+}
+
+// c06Malformed hands the real signer service and the real ruler arguments that cannot be decided (absent
+// credentials, absent data, absent checkpoints, identifier lists shorter than the data list, unknown actions,
+// data of the wrong type): nothing of it may come back signed or approved.  A panic is counted, not judged (it is
+// not a signature; crashes are C20's subject).
+func c06Malformed(run *evid.Run, e *c06Env) {
+	e.ctl.set(nil, nil)
+	e.FreshKeys(4)
+	bg := context.Background()
+	sv := e.Stack.Signer
+	creds := rig.Client1()
+	epoch := uint64(1000)
+	att := func(k int) *rules.SignBeaconAttestationData {
+		epoch += 2
+		return &rules.SignBeaconAttestationData{Domain: Dom(DomainAttester, 0), Slot: epoch * 32, BeaconBlockRoot: Root32(5),
+			Source: &rules.Checkpoint{Epoch: epoch, Root: Root32(1)}, Target: &rules.Checkpoint{Epoch: epoch + 1, Root: Root32(2)}}
+	}
+	prop := func() *rules.SignBeaconProposalData {
+		epoch += 2
+		return &rules.SignBeaconProposalData{Domain: Dom(DomainProposer, 0), Slot: epoch, ParentRoot: Root32(3), StateRoot: Root32(4), BodyRoot: Root32(5)}
+	}
+	gen := func() *rules.SignData { return &rules.SignData{Domain: Dom([]byte{9, 0, 0, 0}, 1), Data: Root32(6)} }
+	guard := func(desc string, f func() ([]core.Result, [][]byte), bad []int) {
+		run.Eval(1)
+		run.Count("malformed_argument_cases", 1)
+		var res []core.Result
+		var sigs [][]byte
+		func() {
+			defer func() {
+				if p := recover(); p != nil {
+					run.Count("malformed_argument_panics", 1)
+					run.Distinct("malformed " + desc + " -> panic")
+				}
+			}()
+			res, sigs = f()
+		}()
+		run.Distinct(fmt.Sprintf("malformed %s -> %v", desc, res))
+		for _, p := range bad {
+			if p < len(res) && res[p] == core.ResultSucceeded {
+				run.Violate(fmt.Sprintf("%s: position %d reported SUCCEEDED", desc, p), nil)
+			}
+			if p < len(sigs) && len(sigs[p]) > 0 {
+				run.Violate(fmt.Sprintf("%s: position %d carries a signature", desc, p), nil)
+			}
+		}
+		for i := range sigs {
+			if len(sigs[i]) > 0 && (i >= len(res) || res[i] != core.ResultSucceeded) {
+				run.Violate(fmt.Sprintf("%s: position %d carries a signature without SUCCEEDED", desc, i), nil)
+			}
+		}
+	}
+	one := func(r core.Result, s []byte) ([]core.Result, [][]byte) { return []core.Result{r}, [][]byte{s} }
+	k := e.Keys
+	nm := e.Names
+	for _, c := range []*checker.Credentials{nil, {RequestID: "r", Client: "", IP: "10.0.0.1"}} {
+		c := c
+		what := "nil credentials"
+		if c != nil {
+			what = "credentials without a client"
+		}
+		guard(what+" / generic", func() ([]core.Result, [][]byte) { return one(sv.SignGeneric(bg, c, nm[0], nil, gen())) }, []int{0})
+		guard(what+" / attestation", func() ([]core.Result, [][]byte) { return one(sv.SignBeaconAttestation(bg, c, nm[0], nil, att(0))) }, []int{0})
+		guard(what+" / proposal", func() ([]core.Result, [][]byte) { return one(sv.SignBeaconProposal(bg, c, nm[0], nil, prop())) }, []int{0})
+		guard(what+" / multisign", func() ([]core.Result, [][]byte) {
+			return sv.Multisign(bg, c, []string{nm[0], nm[1]}, [][]byte{nil, nil}, []*rules.SignData{gen(), gen()})
+		}, []int{0, 1})
+		guard(what+" / attestations", func() ([]core.Result, [][]byte) {
+			return sv.SignBeaconAttestations(bg, c, []string{nm[0], nm[1]}, [][]byte{nil, nil}, []*rules.SignBeaconAttestationData{att(0), att(1)})
+		}, []int{0, 1})
+	}
+	guard("generic nil data", func() ([]core.Result, [][]byte) { return one(sv.SignGeneric(bg, creds, nm[0], nil, nil)) }, []int{0})
+	guard("generic nil Data field", func() ([]core.Result, [][]byte) {
+		return one(sv.SignGeneric(bg, creds, nm[0], nil, &rules.SignData{Domain: Dom([]byte{9, 0, 0, 0}, 1)}))
+	}, []int{0})
+	guard("generic nil Domain field", func() ([]core.Result, [][]byte) { return one(sv.SignGeneric(bg, creds, nm[0], nil, &rules.SignData{Data: Root32(1)})) }, []int{0})
+	guard("attestation nil data", func() ([]core.Result, [][]byte) { return one(sv.SignBeaconAttestation(bg, creds, nm[0], nil, nil)) }, []int{0})
+	guard("attestation nil source", func() ([]core.Result, [][]byte) {
+		d := att(0)
+		d.Source = nil
+		return one(sv.SignBeaconAttestation(bg, creds, nm[0], nil, d))
+	}, []int{0})
+	guard("attestation nil target", func() ([]core.Result, [][]byte) {
+		d := att(0)
+		d.Target = nil
+		return one(sv.SignBeaconAttestation(bg, creds, nm[0], nil, d))
+	}, []int{0})
+	guard("proposal nil data", func() ([]core.Result, [][]byte) { return one(sv.SignBeaconProposal(bg, creds, nm[0], nil, nil)) }, []int{0})
+	guard("no account name and no key", func() ([]core.Result, [][]byte) { return one(sv.SignBeaconProposal(bg, creds, "", nil, prop())) }, []int{0})
+	for p := 0; p < 3; p++ {
+		p := p
+		for _, hole := range []string{"nil entry", "nil source", "nil target"} {
+			hole := hole
+			guard(fmt.Sprintf("attestations with %s at %d", hole, p), func() ([]core.Result, [][]byte) {
+				ds := []*rules.SignBeaconAttestationData{att(0), att(1), att(2)}
+				switch hole {
+				case "nil entry":
+					ds[p] = nil
+				case "nil source":
+					ds[p].Source = nil
+				default:
+					ds[p].Target = nil
+				}
+				return sv.SignBeaconAttestations(bg, creds, []string{nm[0], nm[1], nm[2]}, [][]byte{nil, nil, nil}, ds)
+			}, []int{p})
+		}
+		for _, hole := range []string{"nil entry", "nil Data field", "nil Domain field"} {
+			hole := hole
+			guard(fmt.Sprintf("multisign with %s at %d", hole, p), func() ([]core.Result, [][]byte) {
+				ds := []*rules.SignData{gen(), gen(), gen()}
+				switch hole {
+				case "nil entry":
+					ds[p] = nil
+				case "nil Data field":
+					ds[p].Data = nil
+				default:
+					ds[p].Domain = nil
+				}
+				return sv.Multisign(bg, creds, []string{nm[0], nm[1], nm[2]}, [][]byte{nil, nil, nil}, ds)
+			}, []int{p})
+		}
+	}
+	guard("attestations empty batch", func() ([]core.Result, [][]byte) { return sv.SignBeaconAttestations(bg, creds, nil, nil, nil) }, []int{0})
+	guard("multisign empty batch", func() ([]core.Result, [][]byte) { return sv.Multisign(bg, creds, nil, nil, nil) }, []int{0})
+	guard("attestations with fewer identifiers than data", func() ([]core.Result, [][]byte) {
+		return sv.SignBeaconAttestations(bg, creds, []string{nm[0]}, [][]byte{nil}, []*rules.SignBeaconAttestationData{att(0), att(1), att(2)})
+	}, []int{1, 2})
+	guard("multisign with fewer identifiers than data", func() ([]core.Result, [][]byte) {
+		return sv.Multisign(bg, creds, []string{nm[0]}, [][]byte{nil}, []*rules.SignData{gen(), gen(), gen()})
+	}, []int{1, 2})
+	guard("attestations with an empty identifier in the middle", func() ([]core.Result, [][]byte) {
+		return sv.SignBeaconAttestations(bg, creds, []string{nm[0], "", nm[2]}, [][]byte{nil, nil, nil}, []*rules.SignBeaconAttestationData{att(0), att(1), att(2)})
+	}, []int{1})
+
+	// The ruler, directly.
+	rl := e.Stack.Ruler
+	rd := func(i int, data any) *ruler.RulesData {
+		return &ruler.RulesData{WalletName: "W", AccountName: strings.TrimPrefix(nm[i], "W/"), PubKey: k[i].Pub, Data: data}
+	}
+	rguard := func(desc string, f func() []rules.Result, bad []int) {
+		run.Eval(1)
+		run.Count("malformed_ruler_cases", 1)
+		var res []rules.Result
+		func() {
+			defer func() {
+				if p := recover(); p != nil {
+					run.Count("malformed_argument_panics", 1)
+					run.Distinct("ruler " + desc + " -> panic")
+				}
+			}()
+			res = f()
+		}()
+		run.Distinct(fmt.Sprintf("ruler %s -> %v", desc, res))
+		for _, p := range bad {
+			if p < len(res) && res[p] == rules.APPROVED {
+				run.Violate(fmt.Sprintf("ruler approved position %d of a request that cannot be decided: %s", p, desc), nil)
+			}
+		}
+	}
+	rguard("no entries", func() []rules.Result { return rl.RunRules(bg, creds, ruler.ActionSignBeaconAttestation, nil) }, []int{0})
+	rguard("nil entry", func() []rules.Result { return rl.RunRules(bg, creds, ruler.ActionSignBeaconAttestation, []*ruler.RulesData{nil}) }, []int{0})
+	rguard("nil data", func() []rules.Result { return rl.RunRules(bg, creds, ruler.ActionSignBeaconAttestation, []*ruler.RulesData{rd(0, nil)}) }, []int{0})
+	rguard("empty key", func() []rules.Result {
+		d := rd(0, att(0))
+		d.PubKey = nil
+		return rl.RunRules(bg, creds, ruler.ActionSignBeaconAttestation, []*ruler.RulesData{d})
+	}, []int{0})
+	rguard("unknown action", func() []rules.Result { return rl.RunRules(bg, creds, "Sign anything", []*ruler.RulesData{rd(0, att(0))}) }, []int{0})
+	rguard("nil credentials", func() []rules.Result { return rl.RunRules(bg, nil, ruler.ActionSignBeaconAttestation, []*ruler.RulesData{rd(0, att(0))}) }, []int{0})
+	rguard("credentials without a client", func() []rules.Result {
+		return rl.RunRules(bg, &checker.Credentials{RequestID: "r", IP: "10.0.0.1"}, ruler.ActionSignBeaconProposal, []*ruler.RulesData{rd(0, prop())})
+	}, []int{0})
+	for _, c := range []struct {
+		action string
+		data   any
+	}{{ruler.ActionSign, att(0)}, {ruler.ActionSignBeaconAttestation, prop()}, {ruler.ActionSignBeaconProposal, att(0)}, {ruler.ActionSignBeaconProposal, gen()},
+		{ruler.ActionSignBeaconAttestation, gen()}, {ruler.ActionAccessAccount, gen()}, {ruler.ActionLockAccount, att(0)}, {ruler.ActionCreateAccount, att(0)}} {
+		c := c
+		rguard(fmt.Sprintf("data of type %T for action %q", c.data, c.action), func() []rules.Result { return rl.RunRules(bg, creds, c.action, []*ruler.RulesData{rd(1, c.data)}) }, []int{0})
+	}
+	rguard("attestation batch with a proposal at position 1", func() []rules.Result {
+		return rl.RunRules(bg, creds, ruler.ActionSignBeaconAttestation, []*ruler.RulesData{rd(0, att(0)), rd(1, prop()), rd(2, att(2))})
+	}, []int{1})
+	rguard("attestation batch with a nil entry at position 1", func() []rules.Result {
+		return rl.RunRules(bg, creds, ruler.ActionSignBeaconAttestation, []*ruler.RulesData{rd(0, att(0)), nil, rd(2, att(2))})
+	}, []int{1})
+	rguard("attestation batch without an account name at position 2", func() []rules.Result {
+		d := rd(2, att(2))
+		d.AccountName = ""
+		return rl.RunRules(bg, creds, ruler.ActionSignBeaconAttestation, []*ruler.RulesData{rd(0, att(0)), rd(1, att(1)), d})
+	}, []int{2})
 }
